@@ -259,7 +259,7 @@ theorem invProg_step (cfg : Cfg) (hmax : 1 ≤ cfg.maxAttempts) (s : State) (e :
     repeat' split at hs
     all_goals (first | (cases hs; done) | skip)
     rename_i _ P hP hg
-    obtain ⟨-, -, hpend, hb⟩ := hg
+    obtain ⟨-, -, hpend, hb, -⟩ := hg
     have hnone : s.batches b = none := by simpa using hb
     cases hs
     have h := hI.pw pw P hP
@@ -515,8 +515,8 @@ theorem reachable_step {cfg : Cfg} {s s' : State} {e : Event} (hr : Reachable cf
 theorem invProg (cfg : Cfg) (hmax : 1 ≤ cfg.maxAttempts) : ∀ s, Reachable cfg s → InvProg cfg s :=
   invariant_of_step cfg (InvProg cfg) (invProg_init cfg) (fun s e s' => invProg_step cfg hmax s e s')
 
-theorem internal_enabled (cfg : Cfg) (hmax : 1 ≤ cfg.maxAttempts) (s : State) (hr : Reachable cfg s) (pw : Nat) (P : PW)
-    (hP : s.pws pw = some P) (hne : P.pipe ≠ []) :
+theorem internal_enabled (cfg : Cfg) (hmax : 1 ≤ cfg.maxAttempts) (s : State) (hr : Reachable cfg s) (hfresh : s.fresh = none)
+    (pw : Nat) (P : PW) (hP : s.pws pw = some P) (hne : P.pipe ≠ []) :
     ∃ e, internalFor s pw e = true ∧ (step cfg s e).isSome = true := by
   have hG := invProg cfg hmax s hr
   have hO := invOrd cfg s hr
@@ -575,7 +575,7 @@ theorem internal_enabled (cfg : Cfg) (hmax : 1 ≤ cfg.maxAttempts) (s : State) 
           | false =>
             exact ⟨.timerFire pw b true, by simp [internalFor, hB, htf], by simp [step, hP, hB, hpe, hpw, hcu]⟩
           | true =>
-            exact ⟨.detach pw b .timer 0, by simp [internalFor], by simp [step, stepDetach, hP, hB, hcu, hpe, hdet, whyOk, htf]⟩
+            exact ⟨.detach pw b .timer 0, by simp [internalFor], by simp [step, stepDetach, hP, hB, hcu, hpe, hdet, whyOk, htf, hfresh]⟩
   | exited =>
     obtain ⟨hqu, -⟩ := hp.exitedEmpty hsend
     cases hpe : P.pending with
@@ -591,11 +591,28 @@ theorem internal_enabled (cfg : Cfg) (hmax : 1 ≤ cfg.maxAttempts) (s : State) 
         | false =>
           exact ⟨.timerFire pw b true, by simp [internalFor, hB, htf], by simp [step, hP, hB, hpe, hpw, hcu]⟩
         | true =>
-          exact ⟨.detach pw b .timer 0, by simp [internalFor], by simp [step, stepDetach, hP, hB, hcu, hpe, hdet, whyOk, htf]⟩
+          exact ⟨.detach pw b .timer 0, by simp [internalFor], by simp [step, stepDetach, hP, hB, hcu, hpe, hdet, whyOk, htf, hfresh]⟩
 
 end KV.Writer
 
 namespace KV.Writer
+
+/-- internal events do not open or close the "batch just created, first add pending" window -/
+theorem internal_keeps_fresh (cfg : Cfg) (s s' : State) (pw : Nat) (e : Event) (hint : internalFor s pw e = true)
+    (hs : step cfg s e = some s') : s'.fresh = s.fresh := by
+  cases e with
+  | newBatch _ _ => simp [internalFor] at hint
+  | add _ _ _ _ _ => simp [internalFor] at hint
+  | produce pw' tp msgs out =>
+    simp only [step, stepProduce] at hs
+    repeat' split at hs
+    all_goals (first | (cases hs; done) | skip)
+    cases hs; rfl
+  | _ =>
+    simp only [step, stepReject, stepRet, stepDetach] at hs
+    repeat' split at hs
+    all_goals (first | (cases hs; done) | skip)
+    all_goals (cases hs; rfl)
 
 /-- every event of the list is an internal event of pw in the state it is taken from, and the list is accepted -/
 def internalRun (cfg : Cfg) (pw : Nat) : State → List Event → Option State
@@ -625,27 +642,27 @@ theorem internalRun_is_run (cfg : Cfg) (pw : Nat) : ∀ (es : List Event) (s s' 
 only of that writer's internal events (timer, queue hand-over, sender, broker decisions — no caller input), of
 length at most `pwCost`, after which its pipeline is empty: nothing is attached, pending, queued or being sent. -/
 theorem flush_terminates (cfg : Cfg) (hmax : 1 ≤ cfg.maxAttempts) :
-    ∀ (n : Nat) (s : State), Reachable cfg s → ∀ pw P, s.pws pw = some P → pwCost cfg s.batches P ≤ n →
+    ∀ (n : Nat) (s : State), Reachable cfg s → s.fresh = none → ∀ pw P, s.pws pw = some P → pwCost cfg s.batches P ≤ n →
       ∃ es s' P', internalRun cfg pw s es = some s' ∧ s'.pws pw = some P' ∧ P'.pipe = [] ∧ es.length ≤ n := by
   intro n
   induction n with
   | zero =>
-    intro s hr pw P hP hle
+    intro s hr hfresh pw P hP hle
     by_cases hne : P.pipe = []
     · exact ⟨[], s, P, rfl, hP, hne, Nat.le_refl _⟩
     · exfalso
-      obtain ⟨e, hint, hen⟩ := internal_enabled cfg hmax s hr pw P hP hne
+      obtain ⟨e, hint, hen⟩ := internal_enabled cfg hmax s hr hfresh pw P hP hne
       obtain ⟨s1, hs1⟩ := Option.isSome_iff_exists.mp hen
       obtain ⟨P1, -, hlt⟩ := internal_decreases cfg s s1 (invProg cfg hmax s hr) pw P hP e hint hs1
       omega
   | succ n ih =>
-    intro s hr pw P hP hle
+    intro s hr hfresh pw P hP hle
     by_cases hne : P.pipe = []
     · exact ⟨[], s, P, rfl, hP, hne, Nat.zero_le _⟩
-    · obtain ⟨e, hint, hen⟩ := internal_enabled cfg hmax s hr pw P hP hne
+    · obtain ⟨e, hint, hen⟩ := internal_enabled cfg hmax s hr hfresh pw P hP hne
       obtain ⟨s1, hs1⟩ := Option.isSome_iff_exists.mp hen
       obtain ⟨P1, hP1, hlt⟩ := internal_decreases cfg s s1 (invProg cfg hmax s hr) pw P hP e hint hs1
-      obtain ⟨es, s', P', hrun, hP', hemp, hlen⟩ := ih s1 (reachable_step hr hs1) pw P1 hP1 (by omega)
+      obtain ⟨es, s', P', hrun, hP', hemp, hlen⟩ := ih s1 (reachable_step hr hs1) ((internal_keeps_fresh cfg s s1 pw e hint hs1).trans hfresh) pw P1 hP1 (by omega)
       refine ⟨e :: es, s', P', ?_, hP', hemp, by simp; omega⟩
       simp only [internalRun, hint, if_true, hs1]
       exact hrun
@@ -856,7 +873,7 @@ theorem done_changes_only_in_sender (cfg : Cfg) (s s' : State) (e : Event) (hs :
     repeat' split at hs
     all_goals (first | (cases hs; done) | skip)
     rename_i _ P hP hg
-    have hnone : s.batches b0 = none := by simpa using hg.2.2.2
+    have hnone : s.batches b0 = none := by simpa using hg.2.2.2.1
     cases hs
     have hne : b ≠ b0 := by intro e; rw [e, hnone] at hB; cases hB
     exact ⟨B, by show upd s.batches b0 _ b = _; rw [upd_other _ _ _ _ hne]; exact hB, Or.inl rfl⟩
@@ -1060,31 +1077,31 @@ from every reachable state there are at most `pwCost` internal events of the par
 is empty and every batch that was attached, pending, queued or being sent is completed (`done` set: acknowledged, or
 failed permanently / after MaxAttempts attempts), with its Completion callback run if one is configured. -/
 theorem flush_completes (cfg : Cfg) (hmax : 1 ≤ cfg.maxAttempts) :
-    ∀ (n : Nat) (s : State), Reachable cfg s → ∀ pw P, s.pws pw = some P → pwCost cfg s.batches P ≤ n →
+    ∀ (n : Nat) (s : State), Reachable cfg s → s.fresh = none → ∀ pw P, s.pws pw = some P → pwCost cfg s.batches P ≤ n →
       ∃ es s' P', internalRun cfg pw s es = some s' ∧ s'.pws pw = some P' ∧ P'.pipe = [] ∧ es.length ≤ n ∧
         ∀ b ∈ P.pipe, ∃ B' code, s'.batches b = some B' ∧ B'.done = some code := by
   intro n
   induction n with
   | zero =>
-    intro s hr pw P hP hle
+    intro s hr hfresh pw P hP hle
     by_cases hne : P.pipe = []
     · exact ⟨[], s, P, rfl, hP, hne, Nat.le_refl _, by intro b hb; rw [hne] at hb; cases hb⟩
     · exfalso
-      obtain ⟨e, hint, hen⟩ := internal_enabled cfg hmax s hr pw P hP hne
+      obtain ⟨e, hint, hen⟩ := internal_enabled cfg hmax s hr hfresh pw P hP hne
       obtain ⟨s1, hs1⟩ := Option.isSome_iff_exists.mp hen
       obtain ⟨P1, -, hlt⟩ := internal_decreases cfg s s1 (invProg cfg hmax s hr) pw P hP e hint hs1
       omega
   | succ n ih =>
-    intro s hr pw P hP hle
+    intro s hr hfresh pw P hP hle
     by_cases hne : P.pipe = []
     · exact ⟨[], s, P, rfl, hP, hne, Nat.zero_le _, by intro b hb; rw [hne] at hb; cases hb⟩
-    · obtain ⟨e, hint, hen⟩ := internal_enabled cfg hmax s hr pw P hP hne
+    · obtain ⟨e, hint, hen⟩ := internal_enabled cfg hmax s hr hfresh pw P hP hne
       obtain ⟨s1, hs1⟩ := Option.isSome_iff_exists.mp hen
       obtain ⟨P1, hP1, hlt⟩ := internal_decreases cfg s s1 (invProg cfg hmax s hr) pw P hP e hint hs1
       obtain ⟨P1', hP1', hpipe⟩ := internal_pipe cfg s s1 (invClosedQ cfg s hr) pw P hP e hint hs1
       rw [hP1] at hP1'; cases hP1'
       have hr1 := reachable_step hr hs1
-      obtain ⟨es, s', P', hrun, hP', hemp, hlen, hdone⟩ := ih s1 hr1 pw P1 hP1 (by omega)
+      obtain ⟨es, s', P', hrun, hP', hemp, hlen, hdone⟩ := ih s1 hr1 ((internal_keeps_fresh cfg s s1 pw e hint hs1).trans hfresh) pw P1 hP1 (by omega)
       refine ⟨e :: es, s', P', ?_, hP', hemp, by simp; omega, ?_⟩
       · simp only [internalRun, hint, if_true, hs1]; exact hrun
       · -- completed batches stay completed along the rest of the run
@@ -1113,5 +1130,176 @@ theorem flush_completes (cfg : Cfg) (hmax : 1 ≤ cfg.maxAttempts) :
           rcases List.mem_cons.mp hb with rfl | hb
           · exact hstay es s1 s' hr1 hrun b B0 code hB0 hd0
           · exact hdone b hb
+
+end KV.Writer
+
+namespace KV.Writer
+
+/-! ## The window between newWriteBatch and the first add; sent batches are not empty -/
+
+structure InvFresh (s : State) : Prop where
+  freshLock : s.fresh.isSome = true → s.wlock.isCall = true
+  emptyFresh : ∀ b B, s.batches b = some B → B.msgs = [] → s.fresh = some b
+  detNonempty : ∀ b B, s.batches b = some B → B.detached.isSome = true → B.msgs ≠ []
+
+theorem invFresh_init : InvFresh State.init := by
+  constructor <;> simp [State.init]
+
+/-- frame: `fresh` unchanged, the lock stays with a call unless `fresh` is none, batches keep their messages and only
+gain `detached` when non-empty -/
+theorem InvFresh.of_frame {s s' : State} (h : InvFresh s) (hf : s'.fresh = s.fresh)
+    (hw : s.wlock.isCall = true → s'.wlock.isCall = true ∨ s.fresh = none)
+    (hbat : ∀ b B', s'.batches b = some B' → ∃ B, s.batches b = some B ∧ B'.msgs = B.msgs ∧
+      (B'.detached.isSome = true → B.detached.isSome = true ∨ B.msgs ≠ [])) : InvFresh s' := by
+  constructor
+  · intro hs
+    rw [hf] at hs
+    rcases hw (h.freshLock hs) with h1 | h1
+    · exact h1
+    · rw [h1] at hs; cases hs
+  · intro b B' hB' hm
+    obtain ⟨B, hB, e, -⟩ := hbat b B' hB'
+    rw [hf]; exact h.emptyFresh b B hB (e ▸ hm)
+  · intro b B' hB' hd
+    obtain ⟨B, hB, e, hk⟩ := hbat b B' hB'
+    rw [e]
+    rcases hk hd with h1 | h1
+    · exact h.detNonempty b B hB h1
+    · exact h1
+
+theorem fframe_bat_id {s s' : State} (e : s'.batches = s.batches) :
+    ∀ b B', s'.batches b = some B' → ∃ B, s.batches b = some B ∧ B'.msgs = B.msgs ∧
+      (B'.detached.isSome = true → B.detached.isSome = true ∨ B.msgs ≠ []) :=
+  fun _ B' h => ⟨B', e ▸ h, rfl, fun hd => Or.inl hd⟩
+
+theorem fframe_bat_upd {s s' : State} {b : Nat} {B0 B0' : Batch} (hB0 : s.batches b = some B0)
+    (e : s'.batches = upd s.batches b (some B0')) (hm : B0'.msgs = B0.msgs)
+    (hd : B0'.detached.isSome = true → B0.detached.isSome = true ∨ B0.msgs ≠ []) :
+    ∀ x X', s'.batches x = some X' → ∃ X, s.batches x = some X ∧ X'.msgs = X.msgs ∧
+      (X'.detached.isSome = true → X.detached.isSome = true ∨ X.msgs ≠ []) := by
+  intro x X' hx
+  rw [e] at hx
+  rcases upd_some_elim hx with ⟨rfl, rfl⟩ | ⟨-, h⟩
+  · exact ⟨B0, hB0, hm, hd⟩
+  · exact ⟨X', h, rfl, fun hd => Or.inl hd⟩
+
+theorem invFresh_step (cfg : Cfg) (s : State) (e : Event) (s' : State) (hI : InvFresh s)
+    (hs : step cfg s e = some s') : InvFresh s' := by
+  cases e with
+  | newBatch pw b =>
+    simp only [step] at hs
+    repeat' split at hs
+    all_goals (first | (cases hs; done) | skip)
+    rename_i _ P hP hg
+    obtain ⟨hcall, -, -, hb, hfr⟩ := hg
+    have hnone : s.batches b = none := by simpa using hb
+    cases hs
+    constructor
+    · intro _; exact hcall
+    · intro x X hx hm
+      rcases upd_some_elim hx with ⟨rfl, rfl⟩ | ⟨-, hx⟩
+      · rfl
+      · have := hI.emptyFresh x X hx hm; rw [hfr] at this; cases this
+    · intro x X hx hd
+      rcases upd_some_elim hx with ⟨rfl, rfl⟩ | ⟨-, hx⟩
+      · simp [Batch.new] at hd
+      · exact hI.detNonempty x X hx hd
+  | add pw b c i size =>
+    simp only [step, stepAdd] at hs
+    repeat' split at hs
+    all_goals (first | (cases hs; done) | skip)
+    rename_i _ P hP _ B hB _ C hC hg
+    obtain ⟨-, -, -, -, -, -, -, -, -, -, -, -, -, hfr⟩ := hg
+    cases hs
+    constructor
+    · intro h; cases h
+    · intro x X hx hm
+      rcases upd_some_elim hx with ⟨rfl, rfl⟩ | ⟨hne, hx⟩
+      · simp [Batch.push] at hm
+      · have := hI.emptyFresh x X hx hm
+        rcases hfr with h0 | h0
+        · rw [h0] at this; cases this
+        · rw [h0] at this; cases this; exact absurd rfl hne
+    · intro x X hx hd
+      rcases upd_some_elim hx with ⟨rfl, rfl⟩ | ⟨-, hx⟩
+      · simp [Batch.push]
+      · exact hI.detNonempty x X hx hd
+  | detach pw b why size =>
+    simp only [step, stepDetach] at hs
+    repeat' split at hs
+    all_goals (first | (cases hs; done) | skip)
+    rename_i _ P hP _ B hB hg
+    obtain ⟨-, -, -, -, hfr⟩ := hg
+    cases hs
+    refine hI.of_frame rfl (fun h => Or.inl h) (fframe_bat_upd (B0' := { B with detached := some why }) hB rfl rfl ?_)
+    intro _
+    right
+    intro hm
+    exact hfr (hI.emptyFresh b B hB hm)
+  | batch c =>
+    simp only [step] at hs
+    repeat' split at hs
+    all_goals (first | (cases hs; done) | skip)
+    cases hs
+    exact hI.of_frame rfl (fun _ => Or.inl rfl) (fframe_bat_id rfl)
+  | batched c =>
+    simp only [step] at hs
+    repeat' split at hs
+    all_goals (first | (cases hs; done) | skip)
+    rename_i _ C hC hg
+    cases hs
+    exact hI.of_frame rfl (fun _ => Or.inr hg.2.2.2.2) (fframe_bat_id rfl)
+  | closeBegin =>
+    simp only [step] at hs
+    repeat' split at hs
+    all_goals (first | (cases hs; done) | skip)
+    rename_i hfree
+    cases hs
+    exact hI.of_frame rfl (fun h => by rw [hfree] at h; cases h) (fframe_bat_id rfl)
+  | closeMarked n =>
+    simp only [step] at hs
+    repeat' split at hs
+    all_goals (first | (cases hs; done) | skip)
+    rename_i hg
+    cases hs
+    exact hI.of_frame rfl (fun h => by rw [hg.1] at h; cases h) (fframe_bat_id rfl)
+  | timerFire pw b att =>
+    simp only [step] at hs
+    repeat' split at hs
+    all_goals (first | (cases hs; done) | skip)
+    rename_i _ P hP _ B hB hg
+    cases hs
+    exact hI.of_frame rfl (fun h => Or.inl h) (fframe_bat_upd (B0' := { B with timerFired := true }) hB rfl rfl (fun h => Or.inl h))
+  | completion pw b code =>
+    simp only [step] at hs
+    repeat' split at hs
+    all_goals (first | (cases hs; done) | skip)
+    rename_i _ P hP _ B hB hg
+    cases hs
+    exact hI.of_frame rfl (fun h => Or.inl h)
+      (fframe_bat_upd (B0' := { B with ncompl := B.ncompl + 1, cbCode := some code }) hB rfl rfl (fun h => Or.inl h))
+  | complete pw b code =>
+    simp only [step] at hs
+    repeat' split at hs
+    all_goals (first | (cases hs; done) | skip)
+    rename_i _ P hP _ B hB hg
+    cases hs
+    exact hI.of_frame rfl (fun h => Or.inl h) (fframe_bat_upd (B0' := { B with done := some code }) hB rfl rfl (fun h => Or.inl h))
+  | produce pw tp msgs out =>
+    simp only [step, stepProduce] at hs
+    repeat' split at hs
+    all_goals (first | (cases hs; done) | skip)
+    rename_i _ P hP _ b k hsend _ B hB hg
+    cases hs
+    exact hI.of_frame rfl (fun h => Or.inl h) (fframe_bat_upd (B0' := B.noteProduce out) hB rfl rfl (fun h => Or.inl h))
+  | _ =>
+    simp only [step, stepReject, stepRet] at hs
+    repeat' split at hs
+    all_goals (first | (cases hs; done) | skip)
+    all_goals (cases hs)
+    all_goals exact hI.of_frame rfl (fun h => Or.inl h) (fframe_bat_id rfl)
+
+theorem invFresh (cfg : Cfg) : ∀ s, Reachable cfg s → InvFresh s :=
+  invariant_of_step cfg InvFresh invFresh_init (fun s e s' => invFresh_step cfg s e s')
 
 end KV.Writer
